@@ -1940,7 +1940,18 @@ public:
     // REVISIT: not the most precise renaming but it should be okay.
     m_bool_to_lincsts.rename(old_bools, new_bools);
     m_bool_to_refcsts.rename(old_bools, new_bools);
-    m_bool_to_bools = std::move(bool_to_bools_env_t::top());
+    // m_bool_to_bools must be renamed exactly (keys and members):
+    // array_adaptive_domain renames copies of both operands of
+    // operator<= and a renaming that loses information on the right
+    // operand makes the inclusion test unsound.
+    m_bool_to_bools.rename(old_bools, new_bools);
+    for (unsigned i = 0, sz = old_bools.size(); i < sz; ++i) {
+      const variable_t &old_b = old_bools[i];
+      const variable_t &new_b = new_bools[i];
+      transform_if(m_bool_to_bools,
+		   [&old_b](const bool_set_t &s) { return s.at(old_b);},
+		   [&old_b, &new_b](bool_set_t &s) { s -= old_b; s += new_b;});
+    }
     // Mark from's variables as possibly modified needed for
     // soundness of m_bool_to_lincsts and m_bool_to_refcsts.
     for (auto const&v: from) {
